@@ -93,11 +93,14 @@ TraceObserve ==
 \* same catalogue and registry as the active folder, the dump must be exactly the committed content.
 DumpIs(x) == /\ {x.stores[i].s : i \in 1..Len(x.stores)} = fold[mem.act].list
              /\ \A i \in 1..Len(x.stores) :
-                   /\ x.stores[i].err = ""
-                   \* (a B-tree whose store info says "0 items" is not walked at all)
-                   /\ ToSet(x.stores[i].items) = IF x.stores[i].count = 0 THEN {} ELSE content[x.stores[i].s]
-                   /\ x.stores[i].count = fold[mem.act].info[x.stores[i].s].c
-                   /\ (used = {}) => x.stores[i].count = Cardinality(content[x.stores[i].s])
+                   LET s == x.stores[i].s IN
+                   IF fold[mem.act].info[s] = NoInfo
+                   THEN x.stores[i].err # ""          \* listed, but no store info: cannot be opened
+                   ELSE /\ x.stores[i].err = ""
+                        \* (a B-tree whose store info says "0 items" is not walked at all)
+                        /\ ToSet(x.stores[i].items) = IF x.stores[i].count = 0 THEN {} ELSE content[s]
+                        /\ x.stores[i].count = fold[mem.act].info[s].c
+                        /\ (used = {}) => x.stores[i].count = Cardinality(content[s])
 SameAsActive(i) == /\ fold[i].list = fold[mem.act].list
                    /\ \A s \in fold[i].list : fold[i].info[s] = fold[mem.act].info[s] /\ fold[i].reg[s] = fold[mem.act].reg[s]
 TraceApiDump ==
@@ -105,7 +108,9 @@ TraceApiDump ==
   /\ E.err = ""
   /\ \/ E.force = 0 /\ E.folder = FreshCode.act /\ E.failed = FreshCode.failed
      \/ E.force # 0 /\ E.folder = E.force
-  /\ Quiescent /\ SameAsActive(E.folder) => DumpIs(E)
+  \* (node blobs are shared by both folders: a transaction that committed into the wrong folder has deleted blobs
+  \* the right folder still refers to, so nothing is claimed about reads after a stale-snapshot commit)
+  /\ (Quiescent /\ SameAsActive(E.folder) /\ "staleSnapshot" \notin used) => DumpIs(E)
   /\ UNCHANGED vars
 
 \* last line of every trace: report the finding branches this run needed (one line per surviving branch)
